@@ -99,9 +99,8 @@ Init == /\ n \in MinStages..MaxStages
         /\ w = [i \in 1..n |-> 0]
         /\ loaded = FALSE
         /\ st = [i \in 1..n |-> "pending"]
-        /\ iters \in {f \in [1..n -> 0..1] :                                    \* a loop starts with its first iteration
-                         /\ \A i \in 1..n : f[i] > 0 => i \in LoopStages
-                         /\ Cardinality({i \in 1..n : f[i] > 0}) = (IF LoopStages \cap 1..n = {} THEN 0 ELSE 1)}
+        /\ iters \in (IF LoopStages \cap 1..n = {} THEN {[i \in 1..n |-> 0]}       \* a loop starts with its first iteration
+                      ELSE {[i \in 1..n |-> IF i = l THEN 1 ELSE 0] : l \in LoopStages \cap 1..n})
         /\ prog = [i \in 1..n |-> 0]
         /\ mon = MonIdle
         /\ reported = -1
